@@ -110,6 +110,7 @@ func cmdCheck(args []string) int {
 	tier := fs.String("tier", "", "quick|thorough")
 	only := fs.String("only", "", "run only harnesses whose id or name contains this")
 	par := fs.Int("j", 14, "parallel harness processes")
+	noEvidence := fs.Bool("noevidence", false, "do not rewrite the evidence file (used when evaluating seeded changes on a scratch tree)")
 	fs.Parse(args)
 	if *tier == "" {
 		*tier = os.Getenv("VERIF_TIER")
@@ -368,8 +369,10 @@ func cmdCheck(args []string) int {
 			"explanation":              "Go SSA of /repo's current tree is symbolically executed (calls inlined, loops unrolled to the stated bound, join points merged with ite) and every obligation is decided by z3 for all values of the symbolic inputs within the bounds; nothing is claimed outside them.",
 		},
 	}
-	os.MkdirAll(filepath.Join(verifRoot, "evidence"), 0o755)
-	writeJSON(filepath.Join(verifRoot, "evidence", *prop+".json"), ev)
+	if !*noEvidence {
+		os.MkdirAll(filepath.Join(verifRoot, "evidence"), 0o755)
+		writeJSON(filepath.Join(verifRoot, "evidence", *prop+".json"), ev)
+	}
 	fmt.Printf("property=%s tier=%s harnesses=%d obligations=%d discharged=%d inconclusive=%d violations=%d queries=%d solver_s=%.1f wall_s=%.1f exit=%d\n",
 		*prop, *tier, len(jobs), obligations, discharged, inconclusive, violations, evals, solverS, wall, exit)
 	return exit
